@@ -25,27 +25,36 @@ CFG = 'INIT Init\nNEXT Next\nCONSTANTS Depth = %d Size = "%s"\nINVARIANTS Oracle
 def run(ctx):
     exe = vlib.build_driver('drv_poly', 'plain')
     exe_rec = exe if ctx.quick else vlib.build_driver('drv_poly', 'san')
-    depth, size = (3, 'small') if ctx.quick else (4, 'full')
-    cfg = ctx.cfg('MC_Polygon_hist', CFG % (depth, size))
-    hv = [v for v in ctx.generate('MC_Polygon', cfg, workers=vlib.NCPU, timeout=3000) if v[0] == 'hist']
-    rows = []
-    k = 0
-    for v in hv:
-        polyline, pre, ops = v[1], v[2], v[3]
-        backends = [k % 5] if ctx.quick else [0, 1, 2, 3, 4]
-        if polyline and ctx.quick and k % 3:
-            k += 1
-            continue
-        k += 1
-        for b in backends:
-            rows.append('new %d %d' % (b, 1 if polyline else 0))
-            if pre:
-                rows += [' '.join(str(x) for x in op) for op in pre]
-                rows.append('clear')
-            rows += [' '.join(str(x) for x in op) for op in ops]
-    ctx.cov['behaviours_replayed'] = sum(1 for r in rows if r.startswith('new'))
+    # quick: depth 3 over the small vertex set, one back end per history (round robin); thorough: depth 3 over the full vertex set on
+    # all five back ends, then depth 4 over the small vertex set with one back end per history.  (Depth 4 over the full set is
+    # 1.6 million histories, 8 million replays: it does not fit in memory and adds no new kind of transition.)
+    passes = [(3, 'small', False)] if ctx.quick else [(3, 'full', True), (4, 'small', False)]
     vin = ctx.path('ops.txt')
-    vlib.write_lines(vin, rows)
+    nb = 0
+    k = 0
+    with open(vin, 'w') as fo:
+        for depth, size, allb in passes:
+            cfg = ctx.cfg('MC_Polygon_hist_%d%s' % (depth, size), CFG % (depth, size))
+            hv = ctx.generate('MC_Polygon', cfg, workers=vlib.NCPU, timeout=3000)
+            for v in hv:
+                if v[0] != 'hist':
+                    continue
+                polyline, pre, ops = v[1], v[2], v[3]
+                backends = [0, 1, 2, 3, 4] if allb else [k % 5]
+                if polyline and ctx.quick and k % 3:
+                    k += 1
+                    continue
+                k += 1
+                for b in backends:
+                    rows = ['new %d %d' % (b, 1 if polyline else 0)]
+                    if pre:
+                        rows += [' '.join(str(x) for x in op) for op in pre]
+                        rows.append('clear')
+                    rows += [' '.join(str(x) for x in op) for op in ops]
+                    fo.write('\n'.join(rows) + '\n')
+                    nb += 1
+            del hv
+    ctx.cov['behaviours_replayed'] = nb
     trace = ctx.path('trace.ndjson')
     rc, err = ctx.drive(exe, ['replay'], infile=vin, outfile=trace)
     if rc != 0:
@@ -124,7 +133,8 @@ def run(ctx):
 RULE = ('TLC enumerates every build history (AddPoint over the lattice vertices, AddEdge along the equator incl. the long way round) up to '
         'Depth, for polygon and polyline mode, with and without a cleared garbage prefix, with AddEdge on the still empty object and Clear at '
         'any point as model actions; each history is replayed on Geodesic, GeodesicExact, Geodesic(exact=true), Rhumb and Rhumb(exact=true) '
-        'back ends (quick tier: one back end per history, round robin); after every step the whole observable state is compared with the '
+        'back ends (quick tier: depth 3 over the small vertex set, one back end per history, round robin; thorough tier: depth 3 over the full '
+        'vertex set on all five back ends and depth 4 over the small vertex set, one back end per history); after every step the whole observable state is compared with the '
         'oracle. distinct_nontrivial = histories replayed.')
 TRUSTED = ['TLC', 'Polygon.tla (Gauss-Bonnet oracle)', 'drv_poly.cpp quantisation',
            'drv_poly.cpp long-double references of the law ra (16-point Gauss-Legendre quadrature of the meridian distance, the isometric '
